@@ -25,6 +25,7 @@ type Layout struct {
 	// bookkeeping for oracles
 	Required   []string `json:"required,omitempty"`   // files explicitly referenced: a fault on them must be reported
 	Optional   []string `json:"optional,omitempty"`   // env files with required:false
+	Mixed      []string `json:"mixed,omitempty"`      // env files required by one reference and optional for another
 	Cycle      string   `json:"cycle,omitempty"`      // "", "extends", "include", "alias", "depends_on"
 	Features   []string `json:"features,omitempty"`
 	Remote     map[string]string `json:"remote,omitempty"` // sim://name -> local path (stub ResourceLoader)
